@@ -22,12 +22,27 @@ out.append('Each change lives in `seeded/<id>/` (patch.diff, demo.py, notes.md, 
            'tests stay green, demo fails) and was then run against the property\'s quick check '
            'through `tools/sweep.sh` (scratch worktree + `VERIF_REPO`; /repo itself is never '
            'touched).\n')
+metas = [json.load(open(d)) for d in sorted(glob.glob(V + '/seeded/*/meta.json'))]
+n_caught = sum(1 for m in metas if m.get('caught_by'))
+n_thorough = sum(1 for m in metas if m.get('caught_by') and m.get('tier') == 'thorough')
+n_neutral = sum(1 for m in metas if not m.get('caught_by')
+                and str(m.get('status', '')).startswith('neutralised'))
+n_undecided = sum(1 for m in metas if not m.get('caught_by')
+                  and str(m.get('status', '')).startswith('NOT DECIDED'))
+n_missed = len(metas) - n_caught - n_neutral - n_undecided
+out.append('Totals over fourteen batches of 13 changes (three in the first round, two in the second, one in each later round): %d changes, %d caught (%d of them only '
+           'by the thorough tier, marked in the table), %d neutralised by a repair of the '
+           'defect they build on (each was caught on the tree it was written for, or its '
+           'defect class is what the repair\'s check now covers - see its meta.json), %d not '
+           'decided because no sound oracle exists, %d missed (limits recorded in section 10).\n'
+           % (len(metas), n_caught, n_thorough, n_neutral, n_undecided, n_missed))
 out.append('| id | breaks | needs | caught by (quick) | first failing oracle |\n|---|---|---|---|---|')
-for d in sorted(glob.glob(V + '/seeded/*/meta.json')):
-    m = json.load(open(d))
+for m in metas:
     out.append('| %s | %s | %s | %s | %s |' % (
         m['id'], m['property'], m.get('needs', '').replace('|', '\\|'),
-        ', '.join(m.get('caught_by', [])) or m.get('status', 'MISSED'),
+        (', '.join(m.get('caught_by', [])) + (' (thorough tier)' if m.get('tier') == 'thorough'
+                                              else '')) if m.get('caught_by')
+        else m.get('status', 'MISSED'),
         (m.get('oracle') or '').replace('|', '\\|')))
 out.append('')
 out.append('## 14. Measured throughput (quick tier, 16 workers, from the committed evidence files)\n')
